@@ -79,10 +79,32 @@ class Grammar:
             for k, v in repo.classes[c].class_attrs.items():
                 if isinstance(v, ast.Constant) and isinstance(v.value, str):
                     self.consts.setdefault(k, v.value)
+                else:
+                    try:
+                        lv = ast.literal_eval(v)
+                    except Exception:
+                        continue
+                    if isinstance(lv, (tuple, list)) and all(isinstance(x, str) for x in lv):
+                        self.consts.setdefault(k, list(lv))
         self.order = []
+        self.local_funcs = {}
         for st in f.node.body:
             if isinstance(st, ast.Expr) and isinstance(st.value, ast.Constant):
                 continue
+            if isinstance(st, ast.FunctionDef) and not (st.args.args or st.args.kwonlyargs or st.args.vararg or st.args.kwarg):
+                body = [x for x in st.body if not (isinstance(x, ast.Expr) and isinstance(x.value, ast.Constant))]
+                if len(body) == 1 and isinstance(body[0], ast.Return) and body[0].value is not None:
+                    # a local helper without parameters that builds one grammar element: its calls stand for that expression
+                    self.local_funcs[st.name] = body[0].value
+                    continue
+            if isinstance(st, ast.Assign) and len(st.targets) == 1 and isinstance(st.targets[0], (ast.Tuple, ast.List)) \
+                    and all(isinstance(x, ast.Name) for x in st.targets[0].elts):
+                val = self.ev(st.value)
+                if isinstance(val, (list, tuple)) and len(val) == len(st.targets[0].elts):
+                    for x, v_ in zip(st.targets[0].elts, val):
+                        self.env[x.id] = v_
+                        self.order.append(x.id)
+                    continue
             if not isinstance(st, ast.Assign) or len(st.targets) != 1:
                 raise AnalysisError("construct_parser of %s contains a statement that is not a plain assignment: %s" % (
                     clsname, U(st)[:80]))
@@ -137,6 +159,24 @@ class Grammar:
             raise AnalysisError("unsupported operator in grammar: %s" % U(e))
         if isinstance(e, ast.Call):
             return self.call(e)
+        if isinstance(e, (ast.Tuple, ast.List)):
+            return [self.ev(x) for x in e.elts]
+        if isinstance(e, (ast.GeneratorExp, ast.ListComp)) and len(e.generators) == 1 and not e.generators[0].ifs \
+                and isinstance(e.generators[0].target, ast.Name):
+            items = self.ev(e.generators[0].iter)
+            if isinstance(items, str):
+                items = list(items)
+            if isinstance(items, (list, tuple)):
+                out, nm = [], e.generators[0].target.id
+                saved = self.env.get(nm, None)
+                for it in items:
+                    self.env[nm] = it
+                    out.append(self.ev(e.elt))
+                if saved is None:
+                    self.env.pop(nm, None)
+                else:
+                    self.env[nm] = saved
+                return out
         raise AnalysisError("unsupported grammar expression: %s" % U(e)[:80])
 
     def g(self, v):
@@ -148,6 +188,24 @@ class Grammar:
 
     def call(self, c):
         f = c.func
+        if isinstance(f, ast.Name) and f.id in self.local_funcs and not c.args and not c.keywords:
+            return self.ev(self.local_funcs[f.id])
+        fname = U(f)
+        if fname in ("functools.reduce", "reduce") and len(c.args) == 2 and U(c.args[0]) in (
+                "operator.xor", "xor", "operator.or_", "or_", "operator.add", "add"):
+            # reduce(xor, elements): the elements joined with that operator, left to right
+            items = self.ev(c.args[1])
+            if isinstance(items, (list, tuple)) and items:
+                opn = U(c.args[0]).split(".")[-1]
+                acc = self.g(items[0])
+                for it in items[1:]:
+                    if opn == "add":
+                        acc = seq(acc, self.g(it))
+                    else:
+                        kind = "BitXor" if opn == "xor" else "BitOr"
+                        kids = list(acc.kids) if acc.kind == "alt" and acc.name is None and acc.a.get("op") == kind else [acc]
+                        acc = G("alt", kids + [self.g(it)], op=kind)
+                return acc
         kw = {k.arg: self.ev(k.value) for k in c.keywords}
         if isinstance(f, ast.Attribute) and not (isinstance(f.value, ast.Name) and f.value.id == "pp"):
             base = self.ev(f.value)
